@@ -10,8 +10,8 @@ from .facts import expr_str
 
 MOD = 1 << 16
 
-_ADD = re.compile(r"(core::num::<impl [ui]\d+>::(wrapping_add|overflowing_add|checked_add|saturating_add)|core::ops::arith::Add(<.*>)?>::add)$")
-_SUB = re.compile(r"(core::num::<impl [ui]\d+>::(wrapping_sub|overflowing_sub|checked_sub|saturating_sub)|core::ops::arith::Sub(<.*>)?>::sub)$")
+_ADD = re.compile(r"(core::num::<impl [ui]\d+>::(wrapping_add|overflowing_add|checked_add)|core::ops::arith::Add(<.*>)?>::add)$")
+_SUB = re.compile(r"(core::num::<impl [ui]\d+>::(wrapping_sub|overflowing_sub|checked_sub)|core::ops::arith::Sub(<.*>)?>::sub)$")
 
 
 def _merge(a, b, sign=1):
